@@ -253,6 +253,12 @@ func ruleReceiveOrder(c *Ctx, r *Report) {
 			r.Unk(rule, short(fn), c.pos(fn.Pos()), "expected exactly one call each of unmarshalLegacyHeader, handleFutureLegacyPacket, legacyReplayMarker, decryptLegacyPacket")
 		} else {
 			succ := boolReturns(fn, 1, true)
+			vacuousExits, decidedExits := 0, 0
+			defer func() {
+				if decidedExits == 0 && vacuousExits > 0 {
+					r.Unk(rule, short(fn)+":decrypt-required", c.pos(fn.Pos()), "no success exit can be taken by a protected record under the rule's assumptions (atoms no longer match the code)")
+				}
+			}()
 			for _, ret := range succ {
 				if k, isC := constBool(unspill(ret.Results[1])); !isC || !k {
 					continue
@@ -262,24 +268,39 @@ func ruleReceiveOrder(c *Ctx, r *Report) {
 				ok2, w2 := guardedBy(rep[0], resultValue(rep[0], 1), ret)
 				r.Check(ok2, "replay-check", short(fn)+":checked", c.ipos(ret), "success only after the replay window accepted the sequence number", "a record can be accepted without passing the replay window check: "+w2)
 				// decrypt for epoch != 0
-				why := passesUnder(fn, []atomAssume{{func(v ssa.Value) bool {
-					bo, ok := v.(*ssa.BinOp)
-					return ok && bo.Op == token.NEQ && isFieldLoad(bo.X, "pkg/protocol/recordlayer.Header", "Epoch")
-				}, vBool(true)}}, dec[0], resultValue(dec[0], 2), ret)
-				r.Check(why == "", rule, short(fn)+":decrypt-required", c.ipos(ret), "for epoch != 0 success only after decryptLegacyPacket reported ok", "a protected record (epoch != 0) can be accepted without successful decryption: "+why)
+				epochCmp := func(op token.Token) func(v ssa.Value) bool {
+					return func(v ssa.Value) bool {
+						bo, ok := v.(*ssa.BinOp)
+						if !ok || bo.Op != op {
+							return false
+						}
+						k, isK := constInt(bo.Y)
+						if isK && k == 0 && isFieldLoad(bo.X, "pkg/protocol/recordlayer.Header", "Epoch") {
+							return true
+						}
+						k, isK = constInt(bo.X)
+						return isK && k == 0 && isFieldLoad(bo.Y, "pkg/protocol/recordlayer.Header", "Epoch")
+					}
+				}
+				why := passesUnder(fn, []atomAssume{{epochCmp(token.NEQ), vBool(true)}, {epochCmp(token.EQL), vBool(false)}, {epochCmp(token.GTR), vBool(true)}}, dec[0], resultValue(dec[0], 2), ret)
+				if strings.HasPrefix(why, "vacuous") {
+					// this success exit cannot be taken by a protected record at all (the exit of the
+					// unprotected epoch): nothing to show for it, as long as another exit can
+					vacuousExits++
+				} else {
+					decidedExits++
+					r.Check(why == "", rule, short(fn)+":decrypt-required", c.ipos(ret), "for epoch != 0 success only after decryptLegacyPacket reported ok", "a protected record (epoch != 0) can be accepted without successful decryption: "+why)
+				}
 				// marker in the returned state derives from the replay check
 				ls := c.Origins(fieldOfReturnedStruct(ret, 0, "markPacketAsValid"), 0)
 				r.Check(allLeaves(ls, func(v ssa.Value) bool { return isCallResult(v, nameIs("(*dtls.Conn).legacyReplayMarker")) }), "replay-check", short(fn)+":marker-source", c.ipos(ret), "the commit closure handed to the consumers is the one returned by the replay check", "the commit closure does not come from legacyReplayMarker: "+c.describeAll(ls))
 			}
 			r.Check(instrDominates(fut[0], rep[0]), "replay-window-bounded", short(fn), c.ipos(rep[0]), "future-epoch test precedes the lazily growing replay detector table", "legacyReplayMarker (which grows one detector per epoch) runs before the future-epoch bound: a record claiming epoch 65535 allocates 65536 detectors")
-			ok3, w3 := guardedBy(fut[0], negated(fut[0]), rep[0])
-			_ = ok3
-			_ = w3
 			r.Check(instrDominates(rep[0], dec[0]), rule, short(fn)+":check-before-decrypt", c.ipos(dec[0]), "replay check precedes decryption", "decryption runs before the replay check")
 			// failure returns carry no state
 			for _, ret := range boolReturns(fn, 1, false) {
 				if k, isC := constBool(unspill(ret.Results[1])); isC && !k {
-					r.Check(isZeroStruct(ret.Results[0]), rule, short(fn)+":fail-zero", c.ipos(ret), "failure return carries the zero packet state", "a failure return carries a non-zero packet state (the commit closure escapes on a failure path)")
+					r.Check(failStateOK(ret), rule, short(fn)+":fail-zero", c.ipos(ret), "failure return carries the zero packet state (or the failed callee's)", "a failure return carries a non-zero packet state (the commit closure escapes on a failure path)")
 				}
 			}
 		}
@@ -366,7 +387,7 @@ func ruleReceiveOrder(c *Ctx, r *Report) {
 			for _, blk := range fn.Blocks {
 				if ret, ok := blk.Instrs[len(blk.Instrs)-1].(*ssa.Return); ok {
 					if k, isC := constBool(unspill(ret.Results[1])); isC && !k {
-						r.Check(isZeroStruct(ret.Results[0]), rule, short(fn)+":fail-zero", c.ipos(ret), "failure return carries the zero packet state", "failure return carries state")
+						r.Check(failStateOK(ret), rule, short(fn)+":fail-zero", c.ipos(ret), "failure return carries the zero packet state (or the failed callee's)", "failure return carries state")
 					} else if !isC {
 						r.Check(isCallResult(unspill(ret.Results[1]), nameIs("(*dtls.Conn).prepareInnerPlaintextRecord")), rule, short(fn)+":ok-source", c.ipos(ret), "ok = prepareInnerPlaintextRecord's ok", "non-constant ok result of unknown origin")
 					}
@@ -413,28 +434,51 @@ func fieldOfReturnedStruct(ret *ssa.Return, idx int, field string) ssa.Value {
 func ruleReplayWindow(c *Ctx, r *Report) {
 	const rule = "replay-window-source"
 	sites := c.CallsTo(func(n string) bool { return strings.HasSuffix(n, "replaydetector.New") })
+	nInst := 0
 	for _, s := range sites {
 		call := s.Call.(*ssa.Call)
 		key := short(s.Fn)
 		r.Sites++
 		ls := c.Origins(call.Call.Args[0], 0)
 		r.Check(allLeaves(ls, func(v ssa.Value) bool { return isFieldLoad(v, "dtls.Conn", "replayProtectionWindow") }), rule, key+":window", c.ipos(call), "window = Conn.replayProtectionWindow", "replay window size does not come from the connection's configured window: "+c.describeAll(ls))
-		k, isC := constInt(call.Call.Args[1])
-		u := uint64(k)
-		if cst, ok := call.Call.Args[1].(*ssa.Const); ok && cst.Value != nil {
-			if uv, ok2 := constantUint64(cst); ok2 {
-				u, isC = uv, true
-			}
+		// the maximum: a constant here, or a parameter of a shared private helper whose every call
+		// site passes a constant (each call site is then an instance of its own)
+		type inst struct {
+			v   ssa.Value
+			in  *ssa.Function
+			pos string
 		}
-		want := uint64(1)<<48 - 1
-		if m13 := c.Fn("(*dtls.Conn).protectedReplayMarker"); m13 != nil {
-			for _, u := range c.unitFuncs(m13) {
-				if u == s.Fn {
-					want = ^uint64(0) // DTLS 1.3: 64-bit record numbers
+		insts := []inst{{call.Call.Args[1], s.Fn, c.ipos(call)}}
+		if p, isP := call.Call.Args[1].(*ssa.Parameter); isP {
+			if callers, closed := c.staticCallers(s.Fn); closed && len(callers) > 0 {
+				insts = nil
+				for _, cs := range callers {
+					args := cs.Call.Common().Args
+					if pi := paramIndex(p); pi >= 0 && pi < len(args) {
+						insts = append(insts, inst{args[pi], cs.Fn, c.ipos(cs.Call.(ssa.Instruction))})
+					}
 				}
 			}
 		}
-		r.Check(isC && u == want, rule, key+":max-seq", c.ipos(call), fmt.Sprintf("max sequence %#x", u), fmt.Sprintf("detector's maximum sequence number is %#x, the protocol's is %#x", u, want))
+		for _, it := range insts {
+			nInst++
+			k, isC := constInt(it.v)
+			u := uint64(k)
+			if cst, ok := it.v.(*ssa.Const); ok && cst.Value != nil {
+				if uv, ok2 := constantUint64(cst); ok2 {
+					u, isC = uv, true
+				}
+			}
+			want := uint64(1)<<48 - 1
+			if m13 := c.Fn("(*dtls.Conn).protectedReplayMarker"); m13 != nil {
+				for _, uf := range c.unitFuncs(m13) {
+					if uf == it.in {
+						want = ^uint64(0) // DTLS 1.3: 64-bit record numbers
+					}
+				}
+			}
+			r.Check(isC && u == want, rule, short(it.in)+":max-seq", it.pos, fmt.Sprintf("max sequence %#x", u), fmt.Sprintf("detector's maximum sequence number is %#x, the protocol's is %#x", u, want))
+		}
 		// per-epoch: appended to Common.ReplayDetector inside a loop bounded by the epoch
 		stored := false
 		for _, ref := range *call.Referrers() {
@@ -443,7 +487,7 @@ func ruleReplayWindow(c *Ctx, r *Report) {
 		}
 		_ = stored
 	}
-	r.Floor(rule, len(sites), 2)
+	r.Floor(rule, nInst, 2)
 	// the connection's window comes from the effective configuration value
 	for _, st := range c.StoresTo("dtls.Conn", "replayProtectionWindow") {
 		ls := c.Origins(st.Val, 0)
@@ -537,7 +581,7 @@ func ruleEpochZeroAppData(c *Ctx, r *Report) {
 						sent = x.X
 					case *ssa.Select:
 						for _, st := range x.States {
-							if st.Dir == types.SendOnly && isFieldLoad(st.Chan, "dtls.Conn", "decrypted") {
+							if st.Dir == types.SendOnly && isFieldLoad(st.Chan, "dtls.Conn", "decrypted") && isPayloadValue(st.Send) {
 								sent = st.Send
 								if mi, ok := sent.(*ssa.MakeInterface); ok {
 									sent = mi.X
@@ -974,4 +1018,276 @@ func ruleSeqReconstruction(c *Ctx, r *Report) {
 		}
 	}
 	r.Check(up && down && same, rule, short(fn)+":outcomes", c.pos(fn.Pos()), "candidate, candidate+W, candidate-W", "the reconstruction does not return exactly the candidate or the candidate one whole window up or down")
+}
+
+// ruleDetectorTableBounded: the per-epoch replay detector table grows lazily up to the epoch a
+// record header claims; the claim is unauthenticated, so construction of a detector must be
+// unreachable for a record whose epoch is beyond the current read epoch (C06: one detector per
+// epoch really entered; C08: memory bounded against forged headers).
+func ruleDetectorTableBounded(c *Ctx, r *Report) {
+	fn := c.need(r, "replay-window-bounded", "(*dtls.Conn).prepareLegacyPacket")
+	if fn == nil {
+		return
+	}
+	r.Sites += len(fn.Blocks)
+	// semantic form: with a record epoch beyond the current read epoch no path from the
+	// entry (helpers followed) reaches the construction of a replay detector, so the table
+	// length stays bounded by the epochs the connection really entered.
+	futureCmp := func(v ssa.Value) (Val, bool) {
+		bo, ok := v.(*ssa.BinOp)
+		if !ok {
+			return unknown, false
+		}
+		isEp := func(x ssa.Value) bool {
+			return allLeaves(c.Origins(x, 0), func(l ssa.Value) bool {
+				return isFieldLoad(l, "pkg/protocol/recordlayer.Header", "Epoch")
+			})
+		}
+		isRem := func(x ssa.Value) bool {
+			ls := c.Origins(x, 0)
+			return len(ls) > 0 && allLeaves(ls, func(l ssa.Value) bool {
+				return isCallResult(l, func(n string) bool { return strings.HasSuffix(n, ").RemoteEpoch") || strings.HasSuffix(n, ".getRemoteEpoch") })
+			})
+		}
+		var ans map[token.Token]bool
+		switch {
+		case isEp(bo.X) && isRem(bo.Y): // epoch ? remote, with epoch > remote
+			ans = map[token.Token]bool{token.LEQ: false, token.LSS: false, token.EQL: false, token.GTR: true, token.GEQ: true, token.NEQ: true}
+		case isRem(bo.X) && isEp(bo.Y):
+			ans = map[token.Token]bool{token.LEQ: true, token.LSS: true, token.EQL: false, token.GTR: false, token.GEQ: false, token.NEQ: true}
+		default:
+			return unknown, false
+		}
+		if b, ok := ans[bo.Op]; ok {
+			return vBool(b), true
+		}
+		return unknown, false
+	}
+	w := &Walk{Fn: fn, Follow: followSamePkg(fn), Assume: futureCmp}
+	w.FromEntry()
+	var grows []ssa.Instruction
+	matched := false
+	for in := range w.Reached {
+		if cl, ok := in.(*ssa.Call); ok && strings.HasSuffix(calleeName(&cl.Call), "replaydetector.New") {
+			grows = append(grows, in)
+		}
+		if bo, ok := in.(*ssa.BinOp); ok {
+			if _, m := futureCmp(bo); m {
+				matched = true
+			}
+		}
+	}
+	if !matched {
+		r.Unk("replay-window-bounded", short(fn)+":future-epoch-builds-nothing", c.pos(fn.Pos()), "no comparison of the record epoch with the current read epoch found on the prepare path")
+	} else {
+		where := ""
+		if len(grows) > 0 {
+			where = c.ipos(grows[0])
+		}
+		r.Check(len(grows) == 0, "replay-window-bounded", short(fn)+":future-epoch-builds-nothing", c.pos(fn.Pos()), "a record whose epoch is beyond the current read epoch never reaches replaydetector.New", "a record with an epoch beyond the current read epoch can reach the lazily growing detector table ("+where+"): one forged header with epoch 65535 allocates 65536 replay windows")
+	}
+}
+
+// ruleDeliveryCommits (C06): a record consumer that hands something to the application or to the
+// handshake (payload into the decrypted channel, a reassembled message into the handshake cache)
+// has marked the record in the replay window first, on every path: the invocation of the commit
+// closure dominates the delivery. A delivery on a path that skipped the commit lets every copy
+// of that record through the window check again.
+func ruleDeliveryCommits(c *Ctx, r *Report) {
+	const rule = "delivery-commits"
+	isCommitCall := func(in ssa.Instruction) bool {
+		call, ok := in.(*ssa.Call)
+		if !ok || call.Call.IsInvoke() || call.Call.StaticCallee() != nil {
+			return false
+		}
+		sig, ok := call.Call.Value.Type().Underlying().(*types.Signature)
+		if !ok || sig.Params().Len() != 0 || sig.Results().Len() != 1 {
+			return false
+		}
+		if bt, ok := sig.Results().At(0).Type().Underlying().(*types.Basic); !ok || bt.Kind() != types.Bool {
+			return false
+		}
+		return allLeaves(c.Origins(call.Call.Value, 0), func(l ssa.Value) bool {
+			if _, isP := l.(*ssa.Parameter); isP {
+				return true
+			}
+			_, f, _, ok := fieldLoad(l)
+			return ok && f == "markPacketAsValid"
+		})
+	}
+	commitsOf := func(fn *ssa.Function) []ssa.Instruction {
+		var out []ssa.Instruction
+		for _, b := range fn.Blocks {
+			for _, in := range b.Instrs {
+				if isCommitCall(in) {
+					out = append(out, in)
+				}
+			}
+		}
+		return out
+	}
+	// committedBefore: a commit call dominates `at` in its function, or the function is a private
+	// helper and every one of its call sites is committed before (two levels)
+	var committedBefore func(at ssa.Instruction, d int) bool
+	committedBefore = func(at ssa.Instruction, d int) bool {
+		fn := at.Parent()
+		for _, cm := range commitsOf(fn) {
+			if instrDominates(cm, at) {
+				return true
+			}
+		}
+		if d >= 2 {
+			return false
+		}
+		sites, closed := c.staticCallers(fn)
+		if !closed || len(sites) == 0 {
+			return false
+		}
+		for _, s := range sites {
+			ci, ok := s.Call.(ssa.Instruction)
+			if !ok || !committedBefore(ci, d+1) {
+				return false
+			}
+		}
+		return true
+	}
+	n := 0
+	for _, fn := range c.Fns {
+		if fn.Pkg == nil || fn.Pkg.Pkg.Name() != "dtls" || len(fn.Blocks) == 0 {
+			continue
+		}
+		var deliveries []ssa.Instruction
+		what := map[ssa.Instruction]string{}
+		for _, b := range fn.Blocks {
+			for _, in := range b.Instrs {
+				switch x := in.(type) {
+				case *ssa.Select:
+					for _, st := range x.States {
+						if st.Dir == types.SendOnly && isFieldLoad(st.Chan, "dtls.Conn", "decrypted") && isPayloadValue(st.Send) {
+							deliveries = append(deliveries, in)
+							what[in] = "payload sent to the application (Conn.decrypted)"
+						}
+					}
+				case *ssa.Send:
+					if isFieldLoad(x.Chan, "dtls.Conn", "decrypted") && isPayloadValue(x.X) {
+						deliveries = append(deliveries, in)
+						what[in] = "payload sent to the application (Conn.decrypted)"
+					}
+				case *ssa.Call:
+					if cal := x.Call.StaticCallee(); cal != nil && cal.Signature.Recv() != nil && namedOrType(cal.Signature.Recv().Type()) == "internal/flight.Cache" && cal.Name() == "Push" && isFieldLoad(x.Call.Args[0], "dtls.Conn", "handshakeCache") {
+						// a *received* message: what is pushed comes out of the reassembly buffer
+						if anyLeaf(c.Origins(x.Call.Args[1], 0), func(l ssa.Value) bool {
+							return isCallResult(l, func(nm string) bool { return strings.HasSuffix(nm, "FragmentBuffer).Pop") })
+						}) {
+							deliveries = append(deliveries, in)
+							what[in] = "reassembled handshake message pushed into the handshake cache"
+						}
+					}
+				}
+			}
+		}
+		if len(deliveries) == 0 {
+			continue
+		}
+		r.Sites += len(fn.Blocks)
+		for i, d := range deliveries {
+			n++
+			r.Check(committedBefore(d, 0), rule, fmt.Sprintf("%s:delivery%d", short(fn), i), c.ipos(d), "commit closure invoked on every path before: "+what[d], what[d]+" on a path that did not invoke the replay-window commit: a duplicate of that record passes the window check again and is delivered again")
+		}
+	}
+	r.Floor(rule, n, 2)
+}
+
+func hasFuncBoolParam(fn *ssa.Function) bool {
+	for _, p := range fn.Params {
+		if sig, ok := p.Type().Underlying().(*types.Signature); ok && sig.Params().Len() == 0 && sig.Results().Len() == 1 {
+			return true
+		}
+	}
+	return false
+}
+
+// isPayloadValue: the value put on the delivery channel is record payload (bytes), not an error.
+func isPayloadValue(v ssa.Value) bool {
+	if mi, ok := v.(*ssa.MakeInterface); ok {
+		v = mi.X
+	}
+	sl, ok := v.Type().Underlying().(*types.Slice)
+	if !ok {
+		return false
+	}
+	bt, ok := sl.Elem().Underlying().(*types.Basic)
+	return ok && bt.Kind() == types.Byte
+}
+
+// failStateOK: what a (state, false) return hands back is the zero state, or the state a callee
+// returned together with its own false on this path (the callee's failure state, itself zero by
+// the same rule).
+func failStateOK(ret *ssa.Return) bool {
+	if isZeroStruct(ret.Results[0]) {
+		return true
+	}
+	v := unspill(ret.Results[0])
+	// a local cell filled once from the callee's result (and whose later field assignments do not
+	// lie on the way to this return)
+	if u, isLoad := v.(*ssa.UnOp); isLoad && u.Op == token.MUL {
+		if al, isAl := u.X.(*ssa.Alloc); isAl {
+			var whole ssa.Value
+			n := 0
+			for _, ref := range *al.Referrers() {
+				switch x := ref.(type) {
+				case *ssa.Store:
+					if x.Addr == ssa.Value(al) {
+						whole = x.Val
+						n++
+					}
+				case *ssa.FieldAddr:
+					for _, r2 := range *x.Referrers() {
+						if st, isSt := r2.(*ssa.Store); isSt && st.Addr == ssa.Value(x) && instrReaches(st, ret) {
+							return false
+						}
+					}
+				}
+			}
+			if n == 1 {
+				v = whole
+			}
+		}
+	}
+	ex, ok := v.(*ssa.Extract)
+	if !ok || ex.Index != 0 {
+		return false
+	}
+	call, ok := ex.Tuple.(*ssa.Call)
+	if !ok || call.Call.StaticCallee() == nil || !inModule(call.Call.StaticCallee()) {
+		return false
+	}
+	for _, ref := range *call.Referrers() {
+		okv, isEx := ref.(*ssa.Extract)
+		if !isEx || okv.Index != 1 {
+			continue
+		}
+		for _, r2 := range *okv.Referrers() {
+			switch x := r2.(type) {
+			case *ssa.If:
+				fb := x.Block().Succs[1]
+				if len(fb.Preds) == 1 && (fb == ret.Block() || fb.Dominates(ret.Block())) {
+					return true
+				}
+			case *ssa.UnOp:
+				if x.Op != token.NOT {
+					continue
+				}
+				for _, r3 := range *x.Referrers() {
+					if iff, isIf := r3.(*ssa.If); isIf {
+						fb := iff.Block().Succs[0]
+						if len(fb.Preds) == 1 && (fb == ret.Block() || fb.Dominates(ret.Block())) {
+							return true
+						}
+					}
+				}
+			}
+		}
+	}
+	return false
 }
